@@ -20,6 +20,7 @@ JOIN_CODES = [27, 15, 16, 25, 22, 23, 14, 26, 1]
 SYNC_CODES = [27, 22, 25, 16, 15, 14]
 HB_CODES = [27, 22, 25, 15, 16, 14]
 COMMIT_CODES = [25, 22, 27, 15, 16, 14, 12]
+MD_CODES = [5, 3]  # topic-level metadata errors: LEADER_NOT_AVAILABLE, UNKNOWN_TOPIC_OR_PARTITION
 APIS = ["join_group", "sync_group", "heartbeat", "offset_commit", "find_coordinator", "offset_fetch", "fetch"]
 CODES = {"join_group": JOIN_CODES, "sync_group": SYNC_CODES, "heartbeat": HB_CODES, "offset_commit": COMMIT_CODES, "find_coordinator": [15, 16, 14],
          "offset_fetch": [14, 15, 16], "fetch": [3, 5, 6]}
@@ -46,6 +47,7 @@ def config_strategy():
             "my_ntopics": draw(st.integers(1, ntop)), "ghost_subs": draw(st.sampled_from(["all", "all", "mine"])),
             "initial": draw(st.integers(0, 4)),
             "procs": draw(st.lists(st.sampled_from(["sync_ok"] * 8 + ["async", "async", "sync_raise"]), max_size=10)),
+            "md_order": draw(st.sampled_from(_cl.MD_ORDERS)),
         }
 
     return cfg()
@@ -60,7 +62,7 @@ class Inv(object):
 
 class GRPEngine(Engine):
     NAME = "GRP"
-    MACROS = ["stable", "stable", "rebalance", "rebalance", "evict", "commitreject", "joinfault", "syncfault", "coordfault", "netfault", "procfail", "stopmid", "leave"]
+    MACROS = ["stable", "stable", "rebalance", "rebalance", "evict", "commitreject", "joinfault", "syncfault", "coordfault", "netfault", "procfail", "stopmid", "leave", "lookupfault"]
     MACRO_ONE_IN = 4
 
     @classmethod
@@ -563,7 +565,26 @@ class GRPEngine(Engine):
             return up + [["procmode", "sync_raise"], app, ["wait", 1], ["run", 60], ["wait", 2], ["run", 40]]
         if kind == "leave":
             return up + [["ghost_add", False], ["wait", 2], ["run", 60], ["ghost_leave", 0], ["wait", 3], ["run", 60]]
-        return up + [app, ["run", draw(st.integers(0, 30))], ["stop"], ["run", 60], ["wait", 2], ["run", 30]]
+        if kind == "lookupfault":
+            # a topic is in a transient metadata error state (being created, leader election) while the member joins or rejoins: as
+            # leader it has to look the partitions of every subscribed topic up between JoinGroup and SyncGroup
+            code = draw(st.sampled_from(MD_CODES))
+            ti = draw(st.integers(0, 3))
+            heal = [["wait", draw(st.integers(0, 3))], ["run", 40], ["mderr", ti, 0], ["run", 60], ["wait", 3], ["run", 60], ["wait", 5], ["run", 60]]
+            if not self.started:
+                return [["start"], ["run", draw(st.integers(0, 20))], ["mderr", ti, code], ["run", 40]] + heal
+            return up + [["mderr", ti, code], ["ghost_add", False], ["wait", draw(st.integers(1, 3))], ["run", 60]] + heal
+        # stopmid: stop() while stable, inside the first join/sync exchange, or inside a rebalance (any request of it may be in flight)
+        where = draw(st.sampled_from(["stable", "join", "rebalance"]))
+        tail = [["stop"], ["run", 60], ["wait", 2], ["run", 60], ["wait", 2], ["run", 30]]
+        # ... either after some number of events or right after a chosen request of the exchange has been written
+        api = draw(st.sampled_from([None, "find_coordinator", "join_group", "sync_group", "sync_group", "metadata"]))
+        mid = [["run", draw(st.integers(0, 24))]] if api is None else [["runto", api, 60, draw(st.integers(0, 2))]]
+        if where == "join" and not self.started:
+            return [["start"]] + mid + tail
+        if where == "rebalance":
+            return up + [app, ["run", 30], ["ghost_add", False], ["wait", draw(st.integers(1, 3))]] + mid + tail
+        return up + [app, ["run", draw(st.integers(0, 30))]] + tail
 
     def draw_step(self, draw):
         w = self.world
@@ -584,7 +605,7 @@ class GRPEngine(Engine):
             ops += ["run"] * 10 + ["ev"]
         if w.next_timer() is not None:
             ops += ["timer", "timer", "wait", "wait"]
-        ops += ["err", "err", "hold", "coord", "down", "up", "leader"]
+        ops += ["err", "err", "hold", "coord", "down", "up", "leader", "mderr"]
         if self.cluster.held:
             ops += ["release", "release"]
         if w.live_conns():
@@ -610,6 +631,8 @@ class GRPEngine(Engine):
         if op == "err":
             api = draw(st.sampled_from(APIS))
             return ["err", draw(st.integers(1, nb)), api, draw(st.sampled_from(CODES[api])), draw(st.integers(1, 3))]
+        if op == "mderr":
+            return ["mderr", draw(st.integers(0, 3)), draw(st.sampled_from(MD_CODES + [0, 0]))]
         if op == "hold":
             return ["hold", draw(st.integers(1, nb)), draw(st.sampled_from(["join_group", "sync_group", "heartbeat", "offset_commit", "metadata", "find_coordinator", "offset_fetch", "leave_group"]))]
         if op == "release":
@@ -691,6 +714,23 @@ class GRPEngine(Engine):
                 if not p:
                     break
                 self._process(p[0])
+        elif op == "runto":
+            # deliver pending events until the member has written a new request of the given kind (then `extra` more events)
+            n0 = len(self.writes)
+            for _ in range(step[2]):
+                if any(x["api"] == step[1] and not x.get("resend") for x in self.writes[n0:]):
+                    break
+                p = w.pending()
+                if not p:
+                    break
+                self._process(p[0])
+            else:
+                return
+            for _ in range(step[3]):
+                p = w.pending()
+                if not p:
+                    break
+                self._process(p[0])
         elif op == "ev":
             p = w.pending(step[1])
             if p:
@@ -711,6 +751,14 @@ class GRPEngine(Engine):
         elif op == "err":
             cl.override(step[1], step[2], step[3], step[4])
             self._fault("%s-error" % step[2])
+        elif op == "mderr":
+            names = sorted(cl.topics)
+            t = names[step[1] % len(names)]
+            if step[2]:
+                cl.topic_errors[t] = step[2]
+                self._fault("topic-metadata-error")
+            else:
+                cl.topic_errors.pop(t, None)
         elif op == "hold":
             cl.hold(step[1], step[2], 1)
             self._fault("held-%s-reply" % step[2])
@@ -889,6 +937,7 @@ class GRPEngine(Engine):
     # ------------------------------------------------------------------ quiet phase
     def _lift_faults(self):
         cl = self.cluster
+        cl.topic_errors.clear()
         cl.overrides = []
         cl.holds = []
         for n in cl.brokers:
